@@ -18,7 +18,7 @@ CHECKS = {
     "C08": {"pkg": "verifx/c08", "run": "TestC08", "harness": EXPORTS2, "level": "fault_enumeration"},
     "C11": {"pkg": "verifx/c11", "run": "TestC11", "harness": EXPORTS2, "level": "exploration"},
     "C16": {"pkg": "verifx/c16", "run": "TestC16", "harness": EXPORTS2, "level": "exploration", "thorough": {"budget_s": 2400}},
-    "C19": {"pkg": "verifx/c19", "run": "TestC19", "harness": EXPORTS2 + ["cmd"], "level": "exploration", "instrument": ["-allow-empty", "cmd/agent_publisher.go@sync"], "shards": 8, "thorough": {"budget_s": 2400, "shards": 16}},
+    "C19": {"pkg": "verifx/c19", "run": "TestC19", "harness": EXPORTS2 + ["cmd", "gossip"], "level": "exploration", "instrument": ["-allow-empty", "cmd/agent_publisher.go@sync", "gossip/bus.go", "gossip/processor.go"], "shards": 8, "thorough": {"budget_s": 2400, "shards": 16}},
     "C10": {"pkg": "verifx/c10", "run": "TestC10", "harness": EXPORTS2, "level": "model_checking", "shards": 16, "gomaxprocs": 2,
             "instrument": ["balloon/balloon.go", "balloon/hyper/tree.go", "balloon/hyper/batch_cache.go", "consensus/cluster.go@sync"], "quick": {"budget_s": 600}, "thorough": {"budget_s": 3000},
             "extra": [{"run": "TestC10Race", "race": True, "gomaxprocs": 8}]},
